@@ -318,8 +318,7 @@ def r5_evaluators(ctx: Ctx) -> None:
                               f'{src(p)[:60]!r}: evaluator (with its walrus/loop scope) is kept in {src(stored) if stored is not None else ""!r} across evaluations', node)
                 elif stored is not None:
                     ctx.fail('C07.R5', f, f'context:{call_name(node)}', f'{src(p)[:60]!r}: evaluation context kept across evaluations', node)
-    if n < 3:
-        raise AnalysisError(f'C07.R5: only {n} evaluator constructions found')
+    ctx.need(not (n < 3), f'C07.R5: only {n} evaluator constructions found')
     te = proj.cls('expr_parser.TransactionEvaluator')
     init = te.methods['__init__']
     scope = [s for s in ast.walk(init.node) if isinstance(s, (ast.Assign, ast.AnnAssign)) and dotted(s.targets[0] if isinstance(s, ast.Assign) else s.target) == 'self._scope']
